@@ -33,6 +33,7 @@ from fractions import Fraction
 
 import numpy as np
 
+import core  # noqa: E402
 from core import Driver, Failure, kvs, nl, unq, unql
 
 ID = "C18"
@@ -1924,14 +1925,18 @@ def warm_up():
         for dtype in (F64, F32):
             case = {"kind": kind, "dim": 3, "batch": 3, "dtype": dtype, "seed": 1, "sigma0": 0.5,
                     "x0": [0.0, 0.0, 0.0], "lb": [-2.0] * 3, "ub": [2.0] * 3}
-            try:
-                es = make_es(case)
-                es.reset(np.zeros(3, dtype=NPDT[dtype]))
-                for _ in range(2):
-                    es.ask()
-                    es.tell(np.array([2, 0, 1]), np.zeros(3), 2)
-            except Exception:  # pylint: disable=broad-except
-                pass  # a broken optimizer is reported by the cases, not here
+            def go(case=case, dtype=dtype):
+                try:
+                    es = make_es(case)
+                    es.reset(np.zeros(3, dtype=NPDT[dtype]))
+                    for _ in range(2):
+                        es.ask()
+                        es.tell(np.array([2, 0, 1]), np.zeros(3), 2)
+                except Exception:  # pylint: disable=broad-except
+                    pass  # a broken optimizer is reported by the cases, not here
+            # (a call that never returns is abandoned here as well: the cases meet it under the per-case watchdog)
+            if not core.bounded(go, 60):
+                return
 
 
 MIN_CASES = 8  # per stratum, whatever the clock says (a cold numba cache must not starve a stratum)
